@@ -33,7 +33,7 @@ func init() {
 		c.checkLocking("C20", map[string]string{
 			"Memberlist.nodes": "Memberlist.nodeLock", "Memberlist.nodeMap": "Memberlist.nodeLock", "Memberlist.nodeTimers": "Memberlist.nodeLock",
 			"Memberlist.tickers": "Memberlist.tickerLock", "Memberlist.stopTick": "Memberlist.tickerLock",
-			"Memberlist.ackHandlers": "Memberlist.ackLock",
+			"Memberlist.ackHandlers":   "Memberlist.ackLock",
 			"Memberlist.advertiseAddr": "Memberlist.advertiseLock", "Memberlist.advertisePort": "Memberlist.advertiseLock",
 		}, map[string]string{"newMemberlist": "constructor: the Memberlist is not published yet"}, 60)
 		checkRecordUseAfterUnlock(c)
